@@ -14,7 +14,9 @@
   * `detectionType` = `get_detection_type`, `checkHeralds` = `check_heralds_detectors`;
   * `simulate` = `simulate_detectors` with its three branches (all-PNR / all-threshold /
     general), `ProbabilityDistribution.add` (drops contributions `≤ min_p`),
-    `BSDistribution.list_tensor_product` at `prob_threshold = 0`, `normalize`.
+    `BSDistribution.list_tensor_product` at `prob_threshold = 0`, `normalize`;
+  * `sampleLaw` = `simulate_detectors_sample` (the law of the drawn state), with the `None`-detector
+    repair selected by a flag.
 
   Everything is polymorphic in a linearly ordered field `K` (ℝ for the semantics, ℚ to run).
   Distributions are association lists in insertion order (Python `defaultdict`).
@@ -355,5 +357,38 @@ def simulate (minP : K) (dist : Dist (List ℕ) K) (ds : List (AnyDet K))
 def simulateChecked (minP : K) (m : Option ℕ) (dist : Dist (List ℕ) K) (ds : List (AnyDet K))
     (minPhotons : Option ℕ) : Except String (Acc K) :=
   if m ≠ some ds.length then .error "AssertionError" else .ok (simulate minP dist ds minPhotons)
+
+/-! ### `simulate_detectors_sample` -/
+
+/-- `BSDistribution.tensor_product(bsd1, bsd2)` at `prob_threshold = 0` (`bsd1` empty ⇒ `bsd2`) -/
+def tensor2 (a b : Dist (List ℕ) K) : Dist (List ℕ) K :=
+  if a.isEmpty then b
+  else a.foldl (fun acc x =>
+    b.foldl (fun acc y => if x.2 * y.2 < 0 then acc else bump acc (x.1 ++ y.1) (x.2 * y.2)) acc) []
+
+/-- a one-mode result as a distribution over one-mode states -/
+def lift1 (d : Dist ℕ K) : Dist (List ℕ) K := d.map fun e => ([e.1], e.2)
+
+/-- the loop `state_distrib *= detector.detect(photons_in_mode)` over `zip(sample, detectors)`
+(`zip` truncates to the shorter list — there is no length assertion on this path).
+`fixed = true`: an unset detector (`None`) contributes `BasicState([photons_in_mode])`
+(`fixes/C08-sample-none-detector.diff`); `fixed = false`: the pinned tree calls `None.detect`. -/
+def sampleLoop (fixed : Bool) (minP : K) :
+    List ℕ → List (AnyDet K) → Dist (List ℕ) K → Except String (Dist (List ℕ) K)
+  | n :: s, d :: ds, acc =>
+    match d, fixed with
+    | .none, false => .error "AttributeError"
+    | _, _ => sampleLoop fixed minP s ds (tensor2 acc (lift1 (d.kernel minP n)))
+  | _, _, acc => .ok acc
+
+/-- `simulate_detectors_sample(sample, detectors, detection)`: the distribution the returned state
+is drawn from (`detection` is recomputed or passed by the caller — same value).  All-PNR: the
+sample itself; all-threshold: the thresholded sample; otherwise one draw from the product. -/
+def sampleLaw (fixed : Bool) (minP : K) (ds : List (AnyDet K)) (s : List ℕ) :
+    Except String (Dist (List ℕ) K) :=
+  let ty := detectionType ds
+  if ty = .PNR then .ok [(s, 1)]
+  else if ty = .Threshold then .ok [(s.map (min · 1), 1)]
+  else sampleLoop fixed minP s ds []
 
 end PM.C08
